@@ -281,6 +281,13 @@ pub fn run(ctx: &Ctx) -> Verdict {
     let n = ctx.tier.pick(60_000, 1_500_000);
     let perm = (gen::scenario(cfg()), vec(any::<u8>(), 10)).prop_map(|(base, keys)| PermCase { base, keys });
     v.subs.push(vcore::run_proptest(ctx, "permute", n, perm, check_perm));
+    // long clause lists (real tuples of up to 16 clauses), few methods: position in the tuple must not matter
+    let mut cw = cfg();
+    cw.max_clauses = 16;
+    cw.max_stub_pats = 2;
+    cw.methods = vec![0, 1, 2, 4, 6];
+    let perm_wide = (gen::scenario(cw), vec(any::<u8>(), 16)).prop_map(|(base, keys)| PermCase { base, keys });
+    v.subs.push(vcore::run_proptest(ctx, "permute-wide", n / 2, perm_wide, check_perm));
     let route = (gen::scenario(cfg()), 1..=3u8, vec(any::<u8>(), 24))
         .prop_map(|(base, clones, vias)| RouteCase { base, clones, vias });
     v.subs.push(vcore::run_proptest(ctx, "route", n, route, check_route));
@@ -310,6 +317,7 @@ pub fn replay(sub: &str, case: Value) -> Result<(), String> {
     match sub {
         "permute" => check_perm(&de(case)?).map(|_| ()),
         "route" => check_route(&de(case)?).map(|_| ()),
+        "permute-wide" => check_perm(&de(case)?).map(|_| ()),
         "twin" => check_twin(&de(case)?).map(|_| ()),
         _ => check_generic(&de(case)?).map(|_| ()),
     }
